@@ -370,11 +370,74 @@ def rule_f(ctx, out):
         raise AnalysisError(f"only {n} members of the block family evaluated")
 
 
+def rule_g(ctx, out):
+    """Every block of a code section goes into that section's own output list, exactly there.  The drivers assemble a section with
+        L = []; for block in <section>: ... L.append(<block or its replacement>) ...; <owner>.<section> = L / set_run_code(id, L)
+    For every such loop of gasol_asm: (1) on every path through one iteration that does not raise, something is appended to L (a block
+    that is skipped disappears from the output together with its tag/JUMPDEST/jump), and (2) nothing is appended to the list of
+    another section (a block that lands in the wrong section is lost in one stream and foreign in the other)."""
+    n = 0
+    for f in ctx.p.funcs_in("gasol_asm"):
+        fresh = {t.id for a in own_nodes(f.node) if isinstance(a, ast.Assign) and isinstance(a.value, ast.List) and not a.value.elts for t in a.targets if isinstance(t, ast.Name)}
+        loops = []
+        for loop in [x for x in own_nodes(f.node) if isinstance(x, ast.For)]:
+            appended = {c.func.value.id for st in loop.body for c in calls_in(st) if isinstance(c.func, ast.Attribute) and c.func.attr == "append"
+                        and isinstance(c.func.value, ast.Name) and c.func.value.id in fresh}
+            if not appended:
+                continue
+            # the loop's own list: the appended list that is handed on right after the loop (setter argument / attribute assignment)
+            par = getattr(loop, "_parent", None)
+            sibs = next((v for _, v in ast.iter_fields(par) if isinstance(v, list) and loop in v), []) if par is not None else []
+            after = sibs[sibs.index(loop) + 1:] if loop in sibs else []
+            own = None
+            for st in after:
+                used = [x.id for x in ast.walk(st) if isinstance(x, ast.Name) and isinstance(x.ctx, ast.Load) and x.id in appended]
+                publishes = (isinstance(st, ast.Assign) and any(isinstance(t, ast.Attribute) for t in st.targets)) or \
+                    (isinstance(st, ast.Expr) and isinstance(st.value, ast.Call) and isinstance(st.value.func, ast.Attribute) and st.value.func.attr.startswith("set_"))
+                if used and publishes:
+                    own = used[0]
+                    break
+            if own is not None:
+                loops.append((loop, own))
+        if not loops:
+            continue
+        cfg = ctx.cfg(f)
+        owned = {own for _, own in loops}
+        for loop, own in loops:
+            n += 1
+            head = next((x for x in cfg.nodes if x.kind == "iter" and x.owner is loop), None)
+            if head is None:
+                raise AnalysisError(f"{f.name}: loop head not found in the flow graph")
+            inner = {id(x) for st in loop.body for x in ast.walk(st)}
+            apps_own = {x.id for x in cfg.nodes if x.kind == "stmt" and id(x.ast) in inner and any(
+                isinstance(c.func, ast.Attribute) and c.func.attr == "append" and is_name(c.func.value, own) for c in node_calls(x))}
+            foreign = [(x, c) for x in cfg.nodes if x.kind == "stmt" and id(x.ast) in inner for c in node_calls(x)
+                       if isinstance(c.func, ast.Attribute) and c.func.attr in ("append", "extend", "insert") and isinstance(c.func.value, ast.Name)
+                       and c.func.value.id in owned - {own}]
+            # nested loops of the same function own other lists: an inner loop's appends belong to the inner loop
+            inner_loops_own = {o for l2, o in loops if l2 is not loop and id(l2) in inner}
+            foreign = [(x, c) for x, c in foreign if c.func.value.id not in inner_loops_own]
+            ok = True
+            if cfg.paths_avoiding(head, head, apps_own, src_labels={"T"}, skip_exc=True):
+                ok = False
+                out.bad(f"section-block-dropped:{f.name}:{own}", f"{f.name}: an iteration of `for {norm(loop.target)} in {short(loop.iter, 40)}` can end without appending "
+                        f"to `{own}`, the list that becomes this section's code: the block vanishes from the output", where(f, loop))
+            for x, c in foreign:
+                ok = False
+                out.bad(f"section-block-into-other-section:{f.name}:{own}->{c.func.value.id}", f"{f.name}: inside the loop that fills `{own}` a block is appended to "
+                        f"`{c.func.value.id}`, the list of another section", where(f, c))
+            if ok:
+                out.ok({"function": f.qual, "section_list": own, "loop": f"for {norm(loop.target)} in {short(loop.iter, 40)}"})
+    if n < 4:
+        raise AnalysisError(f"only {n} section-assembling loops found in gasol_asm")
+
+
 RULES = [
     ("C09.e", "containers handed out per loop iteration are fresh", 5, rule_e),
     ("C09.a", "item field agreement (parser/serialiser)", 25, rule_a),
     ("C09.b", "items immutable; rebuild re-uses originals; who may construct", 9, rule_b),
     ("C09.c", "PUSH constants rendered canonically", 3, rule_c),
     ("C09.d", "contract/document metadata preserved by copy", 6, rule_d),
+    ("C09.g", "every block of a section goes into that section's own list", 4, rule_g),
     ("C09.f", "stitching of replaced sub-blocks on a bounded block family (by evaluation): skeleton kept, real operands restored", 50, rule_f),
 ]
